@@ -27,6 +27,8 @@ ASSUMPTIONS = [
     "an empty comment / empty tag list is the same as an absent one",
     "a parameter that was not set must come out absent or zero-length; 'no data set' is None or zero bytes after the round trip",
     "empty (zero-byte) data sets are not generated here: they belong to C16 (CommandDataSetType vs. data fragments)",
+    "the data-set parameter is a BytesIO whose position is at the start, in the middle or at the end when the primitive gets it (a caller may "
+    "have written into it or read it): the stream's content, not its position, is the data set",
     "the presentation context ID and maximum length given to encode_msg are arbitrary (no association involved)",
     "setter rejections (ValueError/TypeError) of a generated value are counted as api-rejected, not failures",
     "side sweep 'out_of_range' (never counted as non-trivial): integers outside 0..65535 for one US parameter are outside the "
@@ -42,6 +44,7 @@ def _classes(desc, m):
     cl = [desc["kind"], "opt:%d/%d" % (len(opt_set), len(m.optional))]
     if desc.get("dataset") is not None:
         cl.append("with-dataset")
+        cl.append("stream-position:" + desc.get("ds_pos", "start"))
     if desc.get("extras"):
         cl.append("extras-set")
     multi = [k for k in desc["params"] if C.ELEMENTS[k][2]]
@@ -263,8 +266,9 @@ def run(ctx):
             "desc": G.descs(extras=True),
             "cid": st.one_of(st.sampled_from([1, 3, 255]), st.integers(0, 127).map(lambda i: 2 * i + 1)),
             "max": st.sampled_from([0, 0, 16382]),
+            "pos": st.sampled_from(["start", "start", "middle", "end"]),
         }
-    )
+    ).map(lambda c: {"desc": dict(c["desc"], ds_pos=c["pos"]) if c["desc"].get("dataset") is not None else c["desc"], "cid": c["cid"], "max": c["max"]})
     n = 2500 if ctx.quick else 6500
     ctx.hyp("roundtrip", case, n)
 
